@@ -103,14 +103,15 @@ func (p PDate) String() string {
 
 type Rng struct {
 	S, E   PDate
-	Parsed bool `json:"parsed,omitempty"` // built through the string parser
+	Parsed bool   `json:"parsed,omitempty"` // built through the string parser
+	CS, CE string `json:"cs,omitempty"`     // constraint words written in front of the two ends (parsed only): the relation is one of intervals, the words must not matter
 }
 
 func (r Rng) lo() int { return r.S.first() }
 func (r Rng) hi() int { return r.E.last() }
 func (r Rng) build() gedcom.DateRange {
 	if r.Parsed {
-		return gedcom.NewDateRangeWithString("Bet. " + r.S.String() + " and " + r.E.String())
+		return gedcom.NewDateRangeWithString("Bet. " + r.CS + r.S.String() + " and " + r.CE + r.E.String())
 	}
 	return gedcom.NewDateRange(r.S.date(), r.E.date())
 }
@@ -216,6 +217,9 @@ func granularityRanges() []Rng {
 		for _, e := range dates {
 			if s.first() <= e.last() {
 				out = append(out, Rng{S: s, E: e}, Rng{S: s, E: e, Parsed: true})
+				if s.Y == 2000 && e.Y == 2000 && s.D == 0 && e.D == 0 {
+					out = append(out, Rng{S: s, E: e, Parsed: true, CS: "Bef. ", CE: "Bef. "}, Rng{S: s, E: e, Parsed: true, CS: "Aft. ", CE: "Abt. "})
+				}
 			}
 		}
 	}
